@@ -17,9 +17,9 @@ import os
 import re
 import vlib
 
-PROOFS = ["MgProof.C01.Lemmas", "MgProof.C01.StepLemmas", "MgProof.C01.InvW", "MgProof.C01.InvR", "MgProof.C01.Once", "MgProof.C01.HB", "MgProof.C01.Props",
+PROOFS = ["MgProof.Tie.Bits", "MgProof.C01.Lemmas", "MgProof.C01.StepLemmas", "MgProof.C01.InvW", "MgProof.C01.InvR", "MgProof.C01.Once", "MgProof.C01.HB", "MgProof.C01.Props",
           "MgProof.C01.ABQInv", "MgProof.C01.DBufInv", "MgProof.C01.PropsQ"]
-GREP = ["MgModel/C01", "MgProof/C01", "MgModel/Common", "Drv/C01.lean"]
+GREP = ["MgProof/Tie", "MgModel/Generated", "MgModel/C01", "MgProof/C01", "MgModel/Common", "Drv/C01.lean"]
 REPO_SRCS = ["muggle/c/sync/channel.c", "muggle/c/sync/array_blocking_queue.c", "muggle/c/sync/double_buffer.c",
              "muggle/c/sync/spinlock.c", "muggle/c/sync/synclock.c", "muggle/c/sync/mutex.c",
              "muggle/c/sync/condition_variable.c", "muggle/c/sync/sync_obj_futex.c",
@@ -780,6 +780,7 @@ def main(ctx):
                        "configuration stream. Every schedule is replayed on the Lean model and the traces compared "
                        "event for event; distinct = distinct implementation traces")
     ctx.lean_obligations("drv_c01", PROOFS, GREP, leanchecker=["MgProof.C01.Props", "MgProof.C01.PropsQ"])
+    vlib.tie_a_generated(ctx)
     if not getattr(ctx, "driver_ok", False):
         return
     static_inventory(ctx)
